@@ -136,6 +136,7 @@ structure Fr where
   inode : String
   first : String                           -- '' = none
   moots : List (String × Moot) := []
+  lineage : List String := []              -- names of the moot originals this framer was cloned from, outermost first
   frames : List Frame := []                -- `.frameNames` in creation order
   auxes : List (String × Nat) := []        -- `.auxes`: tag or name ↦ framer object
   presolved : Bool := false
@@ -217,6 +218,15 @@ def allM {α : Type} (p : α → Except Err Bool) : List α → Except Err Bool
     | .error e => .error e
     | .ok false => .ok false
     | .ok true => allM p xs
+
+/-- `for x in xs: if not p(x, claimed): return False` / `return True`, the list `claimed` threaded through -/
+def allC {α : Type} (p : α → List Nat → Except Err (Bool × List Nat)) : List α → List Nat → Except Err (Bool × List Nat)
+  | [], cl => .ok (true, cl)
+  | x :: xs, cl =>
+    match p x cl with
+    | .error e => .error e
+    | .ok (false, cl) => .ok (false, cl)
+    | .ok (true, cl) => allC p xs cl
 
 /-! ## Framer.__init__, Framer.clone, naming -/
 
@@ -364,16 +374,19 @@ def resolveMoot (u : Nat) (s : St) (tm : String × Moot) : Except Err St :=
       match s.get? u with
       | none => .error .internal
       | some me =>
-        if (lookup me.auxes tag).isSome then .error .resolve
+        if me.lineage.contains orig.name then .error .resolve          -- "Clone loop" (fix D5)
+        else if (lookup me.auxes tag).isSome then .error .resolve
         else
           match surname s u with
           | .error e => .error e
           | .ok sn =>
             match cloneFramer s orig (sn ++ "_" ++ tag) tag with
+            | .error .clone => .error .resolve                         -- CloneError is re-raised as ResolveError (fix D69)
             | .error e => .error e
             | .ok (s, c) =>
               let s := s.mod u (fun o => { o with auxes := assign o.auxes tag c.uid })
-              let s := s.mod c.uid (fun o => { o with inode := if d.inode ≠ "mine" then d.inode else o.inode,
+              let s := s.mod c.uid (fun o => { o with lineage := me.lineage ++ [orig.name],
+                                                      inode := if d.inode ≠ "mine" then d.inode else o.inode,
                                                       original := false, insular := d.insular })
               .ok { s with presolvables := s.presolvables ++ [c.uid] }
 
@@ -546,8 +559,7 @@ def resolveRef (s : St) (o : Fr) (fn : String) (actor : Option String) (ref : St
   | .error e => .error e
   | .ok c =>
     match Ioflo.ResolvePath.resolvePath c none ref with
-    | .error .indexError => .error .internal
-    | .error _ => .error .resolve
+    | .error _ => .error .resolve                    -- incomplete path, missing main, unresolved actor: ResolveError
     | .ok (p, _) => .ok (Ioflo.ResolvePath.lstripDots p)
 
 def mapM' {α β : Type} (f : α → Except Err β) : List α → Except Err (List β)
@@ -753,11 +765,11 @@ structure Ops where
   recur : Nat → St → Except Err St
   segue : Nat → St → Except Err St
   prune : Nat → St → Except Err St
-  checkStart : Nat → St → Except Err Bool
+  checkStart : Nat → List Nat → St → Except Err (Bool × List Nat)
 
 def Ops.bottom : Ops :=
   { enterAll := fun _ _ => .error .depth, exitAll := fun _ _ => .error .depth, recur := fun _ _ => .error .depth,
-    segue := fun _ _ => .error .depth, prune := fun _ _ => .error .depth, checkStart := fun _ _ => .error .depth }
+    segue := fun _ _ => .error .depth, prune := fun _ _ => .error .depth, checkStart := fun _ _ _ => .error .depth }
 
 /-- the part of `Rearer.action` that makes the clone: fresh tag, name `surname_tag`, `Framer.clone`, the flags,
 `framer.auxes[tag] = clone`, `frame.addAux(clone)`, `clone.main = frame`, `presolvables.append(clone)` -/
@@ -806,6 +818,12 @@ def isRazeable (s : St) (a : Nat) : Bool :=
   | some o => o.insular && o.razeable
   | none => false
 
+/-- `not aux.original` -/
+def isCloneAux (s : St) (a : Nat) : Bool :=
+  match s.get? a with
+  | some o => !o.original
+  | none => false
+
 /-- which auxiliaries of a frame `Razer.action` selects -/
 def razeables (s : St) (who : Who) (auxes : List Nat) : List Nat :=
   match who with
@@ -824,19 +842,21 @@ def unregister (s : St) (o : Fr) : St :=
 section level
 variable (lo : Ops)
 
+/-- `aux.prune(); frame.auxes.remove(aux); if aux.tag in framer.auxes: del framer.auxes[aux.tag]`
+(the loop body shared by `Razer.action` and `Framer.prune`) -/
+def pruneStep (u : Nat) (fn : String) (a : Nat) (s : St) : Except Err St :=
+  match lo.prune a s with
+  | .error e => .error e
+  | .ok s =>
+    match s.get? a with
+    | none => .error .internal
+    | some ao => .ok (dropAux u fn a ao.tag s)
+
 /-- `Razer.action` -/
 def raze (u : Nat) (who : Who) (frame : String) (s : St) : Except Err St :=
   match s.frameOf u frame with
   | .error e => .error e
-  | .ok f =>
-    forEach (fun a s =>
-      match lo.prune a s with
-      | .error e => .error e
-      | .ok s =>
-        match s.get? a with
-        | none => .error .internal
-        | some ao =>
-          .ok (dropAux u frame a ao.tag s)) (razeables s who f.auxes) s
+  | .ok f => forEach (pruneStep lo u frame) (razeables s who f.auxes) s
 
 /-- `act()` for one act of frame `fn` of framer `u` in context `c` (every actor modelled returns None) -/
 def runAct (u : Nat) (fn : String) (c : Ctxt) (a : ActK) (s : St) : Except Err St :=
@@ -874,22 +894,30 @@ def needHolds (u : Nat) (fn : String) (s : St) (n : Need) : Except Err Bool :=
     | .auxTag _ => .error .internal
   r.map (fun b => if n.neg then !b else b)
 
-/-- the aux part of `Frame.checkEnter(exits)` -/
-def auxCheck (u : Nat) (fn : String) (exits : List String) (s : St) (a : Nat) : Except Err Bool :=
+/-- `aux.main and (aux.main is not self) and (aux.main not in exits)` for frame `fn` of framer `u` -/
+def heldElsewhere (u : Nat) (fn : String) (exits : List String) (ao : Fr) : Bool :=
+  match ao.main with
+  | some (m, mf) => !(m == u && mf == fn) && !(m == u && exits.contains mf)
+  | none => false
+
+/-- the aux part of `Frame.checkEnter(exits, claimed)`; `claimed` = the original auxiliaries of the frames checked so
+far in this same check (an original auxiliary may not be claimed by two frames of one entry) -/
+def auxCheck (u : Nat) (fn : String) (exits : List String) (s : St) (a : Nat) (claimed : List Nat) :
+    Except Err (Bool × List Nat) :=
   match s.get? a with
   | none => .error .internal
   | some ao =>
-    match ao.main with
-    | some (m, mf) => if ¬ (m = u ∧ mf = fn) ∧ ¬ (m = u ∧ mf ∈ exits) then .ok false else lo.checkStart a s
-    | none => lo.checkStart a s
+    if heldElsewhere u fn exits ao then .ok (false, claimed)
+    else if ao.original && claimed.contains a then .ok (false, claimed)
+    else lo.checkStart a (if ao.original then claimed ++ [a] else claimed) s
 
-/-- `Framer.checkEnter(enters, exits)` (no beacts are modelled) -/
-def checkEnter (u : Nat) (enters exits : List String) (s : St) : Except Err Bool :=
-  if enters.isEmpty then .ok false
-  else allM (fun fn =>
+/-- `Framer.checkEnter(enters, exits, claimed)` (no beacts are modelled) -/
+def checkEnter (u : Nat) (enters exits : List String) (claimed : List Nat) (s : St) : Except Err (Bool × List Nat) :=
+  if enters.isEmpty then .ok (false, claimed)
+  else allC (fun fn cl =>
     match s.frameOf u fn with
     | .error e => .error e
-    | .ok f => allM (auxCheck lo u fn exits s) f.auxes) enters
+    | .ok f => allC (auxCheck lo u fn exits s) f.auxes cl) enters claimed
 
 /-- `Frame.enter()` -/
 def frameEnter (u : Nat) (fn : String) (s : St) : Except Err St :=
@@ -1010,14 +1038,14 @@ def recur (u : Nat) (s : St) : Except Err St :=
   | .error e => .error e
   | .ok me => forEach (frameRecur lo u) me.ctl.actives s
 
-/-- `Framer.checkStart()` -/
-def checkStart (u : Nat) (s : St) : Except Err Bool :=
+/-- `Framer.checkStart(claimed)` -/
+def checkStart (u : Nat) (claimed : List Nat) (s : St) : Except Err (Bool × List Nat) :=
   match s.fr u with
   | .error e => .error e
   | .ok me =>
     match s.frameOf u me.first with
     | .error e => .error e
-    | .ok f => checkEnter lo u f.outline [] s
+    | .ok f => checkEnter lo u f.outline [] claimed s
 
 /-- `Transiter.action(needs, near, far)`; the Bool is the truthiness of the result -/
 def transit (u : Nat) (fn : String) (far : String) (needs : List Need) (s : St) : Except Err (Bool × St) :=
@@ -1030,10 +1058,10 @@ def transit (u : Nat) (fn : String) (far : String) (needs : List Need) (s : St) 
     | _, .error e => .error e
     | .ok me, .ok ff =>
       let (exits, enters, reexens) := exEn far me.ctl.actives ff.outline []
-      match checkEnter lo u enters exits s with
+      match checkEnter lo u enters exits [] s with
       | .error e => .error e
-      | .ok false => .ok (false, s)
-      | .ok true =>
+      | .ok (false, _) => .ok (false, s)
+      | .ok (true, _) =>
         match exit lo u exits s with
         | .error e => .error e
         | .ok s =>
@@ -1087,6 +1115,13 @@ def segue (u : Nat) (s : St) : Except Err St :=
       | .error e => .error e
       | .ok s => segueLoop lo u me.ctl.actives s
 
+/-- the body of the frame loop of `Framer.prune`: `prunables = [aux for aux in frame.auxes if not aux.original]`
+(fix D12a; it was `if aux.insular`), then prune and drop each -/
+def pruneFrame (u : Nat) (fn : String) (s : St) : Except Err St :=
+  match s.frameOf u fn with
+  | .error e => .error e
+  | .ok f => forEach (pruneStep lo u fn) (f.auxes.filter (isCloneAux s)) s
+
 /-- `Framer.prune()` of the repaired tree: exit when still entered (D12b), prune every clone below (D12a) -/
 def prune (u : Nat) (s : St) : Except Err St :=
   match s.fr u with
@@ -1095,20 +1130,7 @@ def prune (u : Nat) (s : St) : Except Err St :=
     match (if me.ctl.active.isSome then exitAll lo false u s else .ok s) with
     | .error e => .error e
     | .ok s =>
-      match forEach (fun fn s =>
-              match s.frameOf u fn with
-              | .error e => .error e
-              | .ok f =>
-                let prunables := f.auxes.filter (fun a => match s.get? a with | some o => !o.original | none => false)
-                forEach (fun a s =>
-                  match lo.prune a s with
-                  | .error e => .error e
-                  | .ok s =>
-                    match s.get? a with
-                    | none => .error .internal
-                    | some ao =>
-                      .ok (dropAux u fn a ao.tag s)) prunables s)
-              (me.frames.map (·.name)) s with
+      match forEach (pruneFrame lo u) (me.frames.map (·.name)) s with
       | .error e => .error e
       | .ok s => .ok (unregister s me)
 
@@ -1139,10 +1161,10 @@ structure Host where
 def hostStep (lo : Ops) (h : Host) (s : St) : Except Err (Host × St) :=
   match h.desire, h.status with
   | .start, .stopped =>
-    match checkStart lo h.uid s with
+    match checkStart lo h.uid [] s with
     | .error e => .error e
-    | .ok false => .ok ({ h with desire := .stop, status := .stopped }, s)
-    | .ok true =>
+    | .ok (false, _) => .ok ({ h with desire := .stop, status := .stopped }, s)
+    | .ok (true, _) =>
       match enterAll lo h.uid s with
       | .error e => .error e
       | .ok s =>
